@@ -123,40 +123,47 @@ func c02Receiver(p *core.Prog, r *core.Report) {
 	// (ii) every append of a chunk is paired with Add of the same chunk
 	okAdd := true
 	n := 0
-	core.EachInstr(f, func(i ssa.Instruction) {
-		c, ok := i.(*ssa.Call)
-		if !ok {
-			return
-		}
-		if b, isB := c.Call.Value.(*ssa.Builtin); !isB || b.Name() != "append" {
-			return
-		}
-		n++
-		// appended element: the variadic slice holds chunkData
-		var chunk ssa.Value
-		if sl, isSl := c.Call.Args[1].(*ssa.Slice); isSl {
-			if al, isAl := sl.X.(*ssa.Alloc); isAl {
-				for _, ref := range *al.Referrers() {
-					if ia, isIA := ref.(*ssa.IndexAddr); isIA {
-						for _, r2 := range *ia.Referrers() {
-							if st, isSt := r2.(*ssa.Store); isSt {
-								chunk = st.Val
+	// (the chunk loop may live in a helper of the reader: same check there)
+	for _, g := range p.FuncsDeep(f, 2) {
+		g := g
+		core.EachInstr(g, func(i ssa.Instruction) {
+			c, ok := i.(*ssa.Call)
+			if !ok {
+				return
+			}
+			if b, isB := c.Call.Value.(*ssa.Builtin); !isB || b.Name() != "append" {
+				return
+			}
+			if fl := core.LoadedField(c.Call.Args[0]); fl == nil || fl.Name() != "remainingChunks" {
+				return
+			}
+			n++
+			// appended element: the variadic slice holds chunkData
+			var chunk ssa.Value
+			if sl, isSl := c.Call.Args[1].(*ssa.Slice); isSl {
+				if al, isAl := sl.X.(*ssa.Alloc); isAl {
+					for _, ref := range *al.Referrers() {
+						if ia, isIA := ref.(*ssa.IndexAddr); isIA {
+							for _, r2 := range *ia.Referrers() {
+								if st, isSt := r2.(*ssa.Store); isSt {
+									chunk = st.Val
+								}
 							}
 						}
 					}
 				}
 			}
-		}
-		found := false
-		for _, ac := range core.CallsIn(f, "Checksum.Add") {
-			if chunk != nil && core.CallArgs(ac)[1] == chunk && ac.Block() == c.Block() {
-				found = true
+			found := false
+			for _, ac := range core.CallsIn(g, "Checksum.Add") {
+				if chunk != nil && core.CallArgs(ac)[1] == chunk && ac.Block() == c.Block() {
+					found = true
+				}
 			}
-		}
-		if !found {
-			okAdd = false
-		}
-	})
+			if !found {
+				okAdd = false
+			}
+		})
+	}
 	r.Check(okAdd && n > 0, "C02-R3", fname(f), "every chunk appended is added to the running checksum", p.Pos(f.Pos()), "append and Add of the same chunk in the same block", "chunks are accepted without being checksummed")
 	// (iii) equality comparison with Sum(), failing arm returns an error, on every path to success
 	var cmpCall *ssa.Call
